@@ -327,7 +327,7 @@ fn space_case(rng: &mut Rng, k: usize) {
   let ws_from_fs: WavelengthSpace = fs.into();
   let ws_from_sd: WavelengthSpace = sd.into();
   let ws_from_steps: WavelengthSpace = ws.as_steps().into();
-  let mut o = json!({"kind": "space", "from": "wavelength", "ws": ws_json(&ws), "fs": fs_json(&fs), "ws2": ws_json(&ws2),
+  let mut o = json!({"kind": "space", "from": "wavelength", "ws_raw": [axis_json((a0, a1, nx)), axis_json((b0, b1, ny))], "ws": ws_json(&ws), "fs": fs_json(&fs), "ws2": ws_json(&ws2),
     "sd": sd_json(&sd), "fs2": fs_json(&fs2), "sd2": sd_json(&sd2), "sd_from_ws": sd_json(&sdw), "ws_from_sd": ws_json(&wsd),
     "into": {"fs_from_ws": fs_json(&fs_from_ws), "fs_from_sd": fs_json(&fs_from_sd), "sd_from_ws": sd_json(&sd_from_ws), "sd_from_fs": sd_json(&sd_from_fs),
              "ws_from_fs": ws_json(&ws_from_fs), "ws_from_sd": ws_json(&ws_from_sd), "ws_from_steps": ws_json(&ws_from_steps)}});
@@ -352,7 +352,7 @@ fn space_case(rng: &mut Rng, k: usize) {
   let sd2 = fs2.as_sum_diff_space();
   let ws = fs.as_wavelength_space();
   let fs3 = ws.as_frequency_space();
-  let mut o = json!({"kind": "space", "from": "frequency", "equal_spans": equal, "fs": fs_json(&fs), "sd": sd_json(&sd), "fs2": fs_json(&fs2),
+  let mut o = json!({"kind": "space", "from": "frequency", "equal_spans": equal, "fs_raw": [axis_json((f0, f1, nx)), axis_json((g0, g1, ny))], "fs": fs_json(&fs), "sd": sd_json(&sd), "fs2": fs_json(&fs2),
     "sd2": sd_json(&sd2), "ws": ws_json(&ws), "fs3": fs_json(&fs3)});
   if nx * ny <= 36 {
     o["fs_si"] = si_json(fs);
@@ -367,7 +367,7 @@ fn space_case(rng: &mut Rng, k: usize) {
   let fs = sd.as_frequency_space();
   let sd2 = fs.as_sum_diff_space();
   let fs2 = sd2.as_frequency_space();
-  emit(json!({"kind": "space", "from": "sumdiff", "sd": sd_json(&sd), "fs": fs_json(&fs), "sd2": sd_json(&sd2), "fs2": fs_json(&fs2)}));
+  emit(json!({"kind": "space", "from": "sumdiff", "sd_raw": [axis_json((s0, s1, nx)), axis_json((-d1, d1, ny))], "sd": sd_json(&sd), "fs": fs_json(&fs), "sd2": sd_json(&sd2), "fs2": fs_json(&fs2)}));
 }
 
 /// the flat (signal, idler) arrays: sequential and parallel iterator, even and odd lengths
@@ -474,6 +474,8 @@ fn range_table_case(rng: &mut Rng, k: usize) {
   let nx = 2 + rng.below(3);
   let ny = nx + 1 + rng.below(2);
   let (nx, ny) = if rng.coin() { (nx, ny) } else { (ny, nx) };
+  // every fourth case is degenerate: no point or a single point on one axis
+  let (nx, ny) = match k % 8 { 3 => (1, ny), 7 => (nx, 0), _ => (nx, ny) };
   let base = spdc.optimum_range(8).as_steps();
   let cxs = 0.5 * (fv(base.0 .0) + fv(base.0 .1));
   let cys = 0.5 * (fv(base.1 .0) + fv(base.1 .1));
@@ -574,9 +576,10 @@ pub fn run(args: &[String]) {
       set_input(json!({"call": format!("range evaluators, case {} (harness c14::range_case)", k)}));
       case("range", || range_case(&mut rng, k));
     }
-    for k in 0..n.max(3) {
+    for k in 0..n.max(4) {
       set_input(json!({"call": format!("all range functions vs pointwise, case {} (harness c14::range_table_case)", k)}));
       case("range_all", || range_table_case(&mut rng, k));
     }
   }
+  emit(json!({"kind": "done", "mode": mode}));
 }
